@@ -155,6 +155,9 @@ func c13Gen(r *rand.Rand, lane string) *c13Case {
 		if core.Chance(r, 1, 6) {
 			w("")
 		}
+		if core.Chance(r, 1, 25) {
+			w(core.Pick(r, "---", "--- # next document", "...")) // a stray document marker between tests: numbering goes on
+		}
 	}
 	if core.Chance(r, 1, 4) {
 		// the last content line is an ordinary line that ends in blanks: it must stay as it is
@@ -328,6 +331,13 @@ func c13Check(env *core.Env, cc core.Case) core.Verdict {
 			}
 		}
 		v.Counts["files_rewritten"] += len(otherRel)
+	}
+	// single-target runs on names that only resemble test files change nothing
+	for _, decoy := range []string{"911102", "911103", "911101"} {
+		_ = cli(env, root, nil, "util", "renumber-tests", decoy)
+	}
+	if d := sut.Diff(after, sut.Snap(root)); len(d) > 0 {
+		return core.Viol("rewrites-a-file-that-is-not-a-test-file", "renumber-tests given the name of a .yamlx / .json / .yaml.orig file changed %v", d)
 	}
 	// 3. idempotence
 	r2 := cli(env, root, nil, args(false)...)
